@@ -120,6 +120,9 @@ def main(tier):
             ck.violation(f"the optimised int4 tensor dequantizes differently from the standard one beyond float16 rounding ({r['deq_ratio']:.3g}x)", ctx)
         if not r["awq_data_is_v2"] or r["awq_dtype"] != "torch.float16":
             ck.violation("the optimised tensor does not hold the v2 packing of the ungrouped codes (or is not float16)", ctx)
+        sv = r.get("saved", {})
+        if "exn" in sv or sv.get("payload_dtype") != "torch.uint8" or not sv.get("standard_meta") or not sv.get("scale_equal") or not sv.get("all_plain"):
+            ck.violation("serializing an optimised int4 tensor (save_to_state_dict) does not store the standard uint8 packing with the original scales: " + str({k: sv.get(k) for k in ("payload_dtype", "standard_meta", "scale_equal", "exn")}), ctx)
         b = r["back"]
         if "exn" in b or not (b.get("codes_equal") and b.get("scale_equal") and b.get("zeropoint_equal")) or b.get("deq_equal") is not True:
             ck.violation("converting an optimised int4 tensor back to the standard representation (qbits_tensor(), used when serializing or leaving the GPU) does not restore the original codes / zero-points: "
